@@ -389,7 +389,7 @@ def shot_noise(img, method='poisson', seed=None):
                 raise e
     else:
         # REF: https://stackoverflow.com/a/33701974
-        with np.errstate(divide='raise'):
+        with np.errstate(divide='raise', invalid='raise'):
             try:
                 img = np.asarray(rng.normal(loc=img, scale=np.sqrt(img)), dtype=int)
             except FloatingPointError:
